@@ -3,7 +3,7 @@
    enabled when scheduled does nothing) from s0.  Threads: TC b = consumer goroutine (b = the select case it
    picks), TU i = user thread i, TTick = the ticker.  All statements hold for every queue capacity, every
    bufio size, every family of user programs and every schedule unless a premise says otherwise. *)
-From Dastard Require Import Common.ZX C07.Conc C07.Model C07.Spec C07.Proofs C07.Variant C07.Run C07.Fast.
+From Dastard Require Import Common.ZX C07.Conc C07.Model C07.Spec C07.Proofs C07.Variant C07.Run C07.Fast C07.Replay.
 
 (* At every moment the logical stream  file ++ (bytes in the consumer's hands: parked write, rest of the
    chunk, bufio buffer) ++ queued chunks  is the concatenation of the accepted Writes in acceptance order;
@@ -152,3 +152,39 @@ Theorem flush_checker_sound :
     forall n s, In (n, s) snaps -> s = hdr ++ concat (zfirstn n recs).
 Proof. exact flush_checker_means. Qed.
 Print Assumptions flush_checker_sound.
+
+(* The model's observations under Run.v's replay pass the gate checker: for every tick mode, queue capacity,
+   bufio size >= 0 and every script the harness can produce ([script_ok]: a Flush/Close is issued only when
+   no control call is outstanding and Close has not been called - the harness drops a second control call and
+   stops at the documented panic).  [model_run] replays the script on [init] by Model.step only: the
+   action's own step, then "settle" (control thread and consumer run until every thread is blocked, fuel =
+   the variant V), releases of the gate as scripted. *)
+Theorem model_passes_gate_checker :
+  forall tm cap bsize acts,
+    0 <= bsize -> script_ok tm cap bsize acts = true ->
+    C07_check_gate (combine acts (model_run tm (init cap bsize (progs_of acts)) acts)) = true.
+Proof. exact model_passes_gate_checker_lemma. Qed.
+Print Assumptions model_passes_gate_checker.
+
+(* Once everything accepted has reached the file (queue and the consumer's hands empty, e.g. after Close),
+   the model's file passes the pipe checker with the record results of its own history. *)
+Theorem model_passes_pipe_checker :
+  forall cap bsize progs sched,
+    single_write progs ->
+    let s := run st tid step (init cap bsize progs) sched in
+    q s = [] -> pend s = [] ->
+    C07_check_pipe [] (records_of (log s)) (file s) false = true.
+Proof. exact model_passes_pipe_checker_lemma. Qed.
+Print Assumptions model_passes_pipe_checker.
+
+(* At every Flush/Close return of the model with nothing accepted between call and return, the snapshot
+   (number of chunks accepted so far, file contents) passes the flush checker. *)
+Theorem model_passes_flush_checker :
+  forall cap bsize progs sched,
+    ctl_discipline progs ->
+    let s := run st tid step (init cap bsize progs) sched in
+    forall l1 i k l2 k' f qs b l3,
+      log s = l1 ++ ECall i k :: l2 ++ ERet i k' f qs b :: l3 -> no_event_of i l2 -> accepted l2 = [] ->
+      C07_check_flush [] (accepted (log s)) [(Z.of_nat (length (accepted l1)), f)] = true.
+Proof. exact model_passes_flush_checker_lemma. Qed.
+Print Assumptions model_passes_flush_checker.
